@@ -71,6 +71,16 @@ impl PhoneticSuggestion {
         }
     }
 
+    /// Replaces the user's auto-correct entries.
+    pub(crate) fn update_user_autocorrect(
+        &mut self,
+        user_autocorrect: HashMap<String, String, RandomState>,
+    ) {
+        self.user_autocorrect = user_autocorrect;
+        // The cached suggestions were made with the previous entries.
+        self.cache.clear();
+    }
+
     /// Add suffix(গুলো, মালা, etc.) to the dictionary suggestions and return them.
     ///
     /// This function gets the suggestion list from the stored cache.
